@@ -269,6 +269,9 @@ func (w *World) applyExportClose(op Op) *Violation {
 	if len(es) == 0 {
 		panic("alphabet error: closing an export that is not open")
 	}
+	// Close is documented as idempotent ("defer e.Close()" after an explicit Close is the usual pattern): every
+	// exporter is closed twice
+	es[len(es)-1].Close()
 	es[len(es)-1].Close()
 	w.exps[op.Ver] = es[:len(es)-1]
 	w.M.Pins[op.Ver]--
